@@ -52,6 +52,11 @@ pub struct Spec {
     /// verification instant injected through the clock hook (unix seconds); None: the wall clock
     #[serde(default)]
     pub clock: Option<i64>,
+    /// how the link directory is spelled for the verifier: 0 its plain path, 1 with a trailing `/.`, 2 through a symbolic
+    /// link alias, 3 as `<symlink>/../links` where the symlink leads into a sibling of the real directory - and the
+    /// place this spelling names when read without following the symlink holds the complete fault-free tree as a decoy
+    #[serde(default)]
+    pub spelling: u8,
 }
 
 fn rename_top(w: &mut World, suffix: &str) {
@@ -215,7 +220,7 @@ impl Property for C15 {
          delegated step: inner layout signed by another functionary / by nobody / by K plus others; inner expiry one second (or whole days) before the verification instant, which is the wall clock or an instant between 2008 and 2093 injected through the clock hook and different from case to case; inner links \
          placed in the parent directory, under another key's directory or (step names with dots) under the name with its last extension stripped; an inner link removed, tampered, replaced by an unauthorised \
          signer's, or with a broken signature; an inner rule that fails; the inner layout edited after signing; the inner layout co-signed by another functionary (whose signature comes first) with the inner links in the co-signer's directory; optionally the parent's next \
-         step is tied to the delegated step's summary with MATCH ... FROM rules, and a step name is requested. History on disk: the fault-free tree is written and verified once in the same directory first, then the faulted tree replaces it at the same paths with one fixed modification time. Oracle: parent Ok only if the \
+         step is tied to the delegated step's summary with MATCH ... FROM rules, and a step name is requested. The link directory is passed as its plain path, with a trailing /., through a symlink alias, or as <symlink>/../links with a complete fault-free decoy tree at the place that spelling names when the symlink is not followed. History on disk: the fault-free tree is written and verified once in the same directory first, then the faulted tree replaces it at the same paths with one fixed modification time. Oracle: parent Ok only if the \
          ground-truth model finds no violated condition (the delegated step counts only when the inner world, judged with key set {K} and \
          directory <step>.<K8>, has none); on Ok the returned summary equals {requested name, materials of the first step, products, \
          command and byproducts of the last step} computed by the model (inner summaries feed parent evidence); fully valid MATCH-tied \
@@ -233,8 +238,8 @@ impl Property for C15 {
         let depth = tier.pick(1usize, 2usize);
         let cfg = Cfg { min_steps: 1, max_steps: 3, max_owners: 1, sub_depth: depth, multi_sub: true, max_threshold: 2, ..Cfg::basic() };
         (valid_world(cfg), fault_strategy(), any::<u8>(), proptest::option::of("[a-z]{1,6}"), any::<bool>(), prop_oneof![3 => Just(false), 1 => Just(true)], any::<bool>(),
-            prop_oneof![1 => Just(None), 2 => (1_200_000_000i64..3_900_000_000).prop_map(Some)])
-            .prop_filter_map("has a delegated step", |((mut world, owners), fault, which, step_name, match_link, deeper, dotted, clock)| {
+            prop_oneof![1 => Just(None), 2 => (1_200_000_000i64..3_900_000_000).prop_map(Some)], prop_oneof![3 => Just(0u8), 1 => Just(1u8), 1 => Just(2u8), 2 => Just(3u8)])
+            .prop_filter_map("has a delegated step", |((mut world, owners), fault, which, step_name, match_link, deeper, dotted, clock, spelling)| {
                 let dotted = dotted || fault == InnerFault::MisplacedStrippedExtension;
                 if dotted {
                     rename_top(&mut world, ".rel-1.2");
@@ -247,7 +252,7 @@ impl Property for C15 {
                 if sub_indices(&world).is_empty() {
                     return None;
                 }
-                Some(Spec { world, owners, fault, which, step_name, match_link, deeper, dotted, clock })
+                Some(Spec { world, owners, fault, which, step_name, match_link, deeper, dotted, clock, spelling })
             })
             .boxed()
     }
@@ -295,9 +300,26 @@ impl Property for C15 {
         let applied = apply_inner_fault(&mut w, li, &spec.fault, spec.deeper, now);
         let fault_name = format!("{:?}", spec.fault).split(|c| c == '(' || c == ' ').next().unwrap_or("").to_string();
         o.class(format!("fault:{}", if applied { fault_name.as_str() } else { "not-applicable" }));
-        let dir = env.fresh_dir("c15");
+        let root = env.fresh_dir("c15");
+        let dir = root.join("real").join("links");
         // history on disk: the fault-free tree was verified once in this very directory before
         let info = write_world_after(&base, &spec.owners, &w, &dir);
+        let dir_arg = match spec.spelling % 4 {
+            0 => dir.clone(),
+            1 => dir.join("."),
+            2 => {
+                let alias = root.join("alias");
+                let _ = std::os::unix::fs::symlink(&dir, &alias);
+                alias
+            }
+            _ => {
+                let _ = std::fs::create_dir_all(root.join("real").join("run"));
+                let _ = std::os::unix::fs::symlink("real/run", root.join("view"));
+                let _ = write_world(&base, &root.join("links"));
+                root.join("view").join("..").join("links")
+            }
+        };
+        o.class(format!("link-dir-spelling:{}", spec.spelling % 4));
         let j = judge(&w, &info, &spec.owners, now, true);
         if spec.fault == InnerFault::Expired && spec.clock.is_some() {
             // history: an earlier verification of the same layout, at an instant at which the sub-layout
@@ -311,9 +333,9 @@ impl Property for C15 {
             o.class("expired-after-an-earlier-failed-call");
         }
         set_clock(true);
-        let r = run_verify(&info, &own_ids(&spec.owners), &dir, spec.step_name.as_deref());
+        let r = run_verify(&info, &own_ids(&spec.owners), &dir_arg, spec.step_name.as_deref());
         set_clock(false);
-        let _ = std::fs::remove_dir_all(&dir);
+        let _ = std::fs::remove_dir_all(&root);
         let Some(r) = r else { return o };
         o.class(if r.is_ok() { "verdict:ok" } else { "verdict:err" });
         let inner_steps = match &w.links[li].body {
